@@ -69,11 +69,19 @@ impl Wake for CommandWaker {
         // nothing to do.
         // TODO: Does that mean we should bail, since waking ourselves is
         // now pointless?
+        #[cfg(crux_verif)]
+        crate::verif::schedule_point("wake:start");
         let _ = self.ready_queue.send(self.task_id);
+        #[cfg(crux_verif)]
+        crate::verif::schedule_point("wake:after_send");
         self.woken.store(true, Ordering::Release);
+        #[cfg(crux_verif)]
+        crate::verif::schedule_point("wake:after_store");
 
         // Note: calling `wake` before `register` is a no-op
         self.parent_waker.wake();
+        #[cfg(crux_verif)]
+        crate::verif::schedule_point("wake:after_parent");
     }
 }
 
@@ -219,6 +227,8 @@ impl<Effect, Event> Command<Effect, Event> {
         };
 
         drop(waker);
+        #[cfg(crux_verif)]
+        crate::verif::schedule_point("run_task:after_poll");
 
         // If the task is pending, but there's only one copy of the waker - our one -
         // it can never be woken up again so we most likely need to evict it.
@@ -227,6 +237,8 @@ impl<Effect, Event> Command<Effect, Event> {
         // Note that there is an exception: the task may have used the waker and dropped it,
         // making it ready, rather than abandoned.
         let task_is_ready = arc_waker.woken.load(Ordering::Acquire);
+        #[cfg(crux_verif)]
+        crate::verif::schedule_point("run_task:between_reads");
         if result == TaskState::Suspended && !task_is_ready && Arc::strong_count(&arc_waker) < 2 {
             return TaskState::Cancelled;
         }
